@@ -1,4 +1,4 @@
-use serde::{Deserialize, Serialize};
+use serde::{de, Deserialize, Deserializer, Serialize};
 
 use crate::nodes::{FieldExpression, FunctionCall, IndexExpression, Prefix, StringExpression};
 use crate::process::utils::is_valid_identifier;
@@ -6,7 +6,7 @@ use crate::process::utils::is_valid_identifier;
 use std::str::FromStr;
 
 /// Represents the different styles of indexing in Roblox.
-#[derive(Debug, Clone, Default, Serialize, Deserialize, PartialEq, Eq)]
+#[derive(Debug, Clone, Default, Serialize, PartialEq, Eq)]
 #[serde(rename_all = "snake_case", tag = "name")]
 pub enum RobloxIndexStyle {
     /// Uses `:FindFirstChild(name)` calls to access child Instances.
@@ -16,6 +16,29 @@ pub enum RobloxIndexStyle {
     WaitForChild,
     /// Uses the property syntax (`parent.ObjectName`) to access child Instances.
     Property,
+}
+
+impl<'de> Deserialize<'de> for RobloxIndexStyle {
+    fn deserialize<D: Deserializer<'de>>(deserializer: D) -> Result<Self, D::Error> {
+        // a table that only holds the name of the style (the derived code would also take a
+        // list, and a number for the name)
+        let mut fields = deserializer.deserialize_map(super::TableVisitor("an indexing style"))?;
+
+        let style = match fields.remove("name") {
+            Some(serde_json::Value::String(name)) => name.parse().map_err(de::Error::custom)?,
+            Some(_) => {
+                return Err(de::Error::custom(
+                    "invalid indexing style: the name of the style must be a string",
+                ))
+            }
+            None => return Err(de::Error::missing_field("name")),
+        };
+
+        match fields.keys().next() {
+            Some(field) => Err(de::Error::unknown_field(field, &["name"])),
+            None => Ok(style),
+        }
+    }
 }
 
 impl RobloxIndexStyle {
